@@ -13,7 +13,7 @@ import ast
 from dataclasses import dataclass, field
 from typing import Any, Callable, Dict, List, Optional, Tuple
 
-from sa.core import AnalysisError, ClassInfo, FuncInfo, ModuleInfo, Program, src
+from sa.core import walk_no_nested, AnalysisError, ClassInfo, FuncInfo, ModuleInfo, Program, src
 
 
 class Unmodelled(AnalysisError):
@@ -43,6 +43,11 @@ class ExcVal:
 class Raised(Exception):
     def __init__(self, exc: Any) -> None:
         self.exc = exc
+
+
+import re as _re_mod
+
+PURE_STDLIB = {"re": _re_mod}
 
 
 class _Continue(Exception):
@@ -113,11 +118,14 @@ class Interp:
             if isinstance(st, ast.Global):
                 globs.update(st.names)
         env["__globals__"] = globs
+        is_gen = any(isinstance(n_, (ast.Yield, ast.YieldFrom)) for n_ in walk_no_nested(f.node))
+        if is_gen:
+            env["__yields__"] = []  # a generator function is modelled as the finite list of the values it yields
         try:
             self.exec_block(f.node.body, env, f)  # type: ignore[attr-defined]
         except _Return as r:
-            return r.value
-        return None
+            return env["__yields__"] if is_gen else r.value
+        return env["__yields__"] if is_gen else None
 
     # ---- statements -----------------------------------------------------------------------
     def exec_block(self, body: List[ast.stmt], env: Dict[str, Any], f: FuncInfo) -> None:
@@ -130,6 +138,12 @@ class Interp:
             raise Unmodelled(f"{f.qualname}: step budget exceeded")
         if isinstance(st, ast.Expr):
             if isinstance(st.value, ast.Constant):
+                return
+            if isinstance(st.value, ast.Yield) and "__yields__" in env:
+                env["__yields__"].append(self.eval(st.value.value, env, f) if st.value.value is not None else None)
+                return
+            if isinstance(st.value, ast.YieldFrom) and "__yields__" in env:
+                env["__yields__"].extend(list(self.eval(st.value.value, env, f)))
                 return
             self.eval(st.value, env, f)
         elif isinstance(st, (ast.Pass, ast.Global)):
@@ -311,6 +325,8 @@ class Interp:
             fake = FuncInfo(f"{m.name}.<module>", m, ast.parse("def _m(): pass").body[0])
             return self.eval(m.assigns[name], {}, fake)
         if name in m.imports:
+            if m.imports[name] in PURE_STDLIB:
+                return PURE_STDLIB[m.imports[name]]  # side-effect-free standard-library module used on constant patterns (re)
             tgt = self.P.canonical(m.imports[name])
             return self.qualified(tgt, f)
         if name in self.externals:
